@@ -10,10 +10,10 @@ ID = 'C13'
 LEAN_MODULE = 'PncProofs.C13'
 LEAN_FILE = 'PncProofs/C13.lean'
 NAMESPACE = 'Props.C13'
-LEAN_CONE = ['PncModel.Words', 'PncModel.Camx.Uamiv', 'PncModel.Camx.Slab', 'PncModel.Camx.SlabRead', 'PncProofs.WordsLemmas', 'PncProofs.SlabLemmas', 'PncProofs.SlabReadLemmas',
-             'PncProofs.BridgeLemmas', 'PncProofs.C13']
-LEMMA_FILES = ['PncProofs/SlabLemmas.lean', 'PncProofs/BridgeLemmas.lean', 'PncProofs/SlabReadLemmas.lean']
-REQUIRED_THEOREMS = ['chunk_records', 'leading_eq', 'mm_decode_encode', 'single_step_rejected', 'read_decode_encode', 'readers_agree', 'read_temp_decode_encode', 'readers_agree_temperature']
+LEAN_CONE = ['PncModel.Words', 'PncModel.Camx.Uamiv', 'PncModel.Camx.Slab', 'PncModel.Camx.SlabRead', 'PncModel.Camx.UamivRead', 'PncProofs.WordsLemmas', 'PncProofs.SlabLemmas', 'PncProofs.SlabReadLemmas',
+             'PncProofs.BridgeLemmas', 'PncProofs.UamivReadLemmas', 'PncProofs.UamivReadEncode', 'PncProofs.C13']
+LEMMA_FILES = ['PncProofs/SlabLemmas.lean', 'PncProofs/BridgeLemmas.lean', 'PncProofs/SlabReadLemmas.lean', 'PncProofs/UamivReadLemmas.lean', 'PncProofs/UamivReadEncode.lean']
+REQUIRED_THEOREMS = ['chunk_records', 'leading_eq', 'mm_decode_encode', 'single_step_rejected', 'read_decode_encode', 'readers_agree', 'read_temp_decode_encode', 'readers_agree_temperature', 'uamiv_readers_agree_words', 'uamiv_read_encode', 'exUamiv_oneDay']
 RULE = ('wind files (both time-header variants, 1-9 time steps) and files of the formats that have both reader families and a uniform layout (one3d, humidity, vertical '
         'diffusivity, temperature, height/pressure: 2-4 steps, 1-3 layers, 1-4 rows and columns, hour steps of 1 or 3 '
         'incl. midnight and year-end starts, also 6, 12 and 24 hour steps over up to 6 steps (several midnights), readers called with and without rows/columns, any float32 payload; gridded average files in the domain of the record '
@@ -25,8 +25,8 @@ ASSUMPTIONS = ['wind: layout (Lean encoder), the Memmap reader against its Lean 
                'record readers: the one3d family, height/pressure and temperature are modelled (SlabRead.lean: layer count, step, end search / last record, '
                'timerange, record positions over integer HHMM arithmetic) and proved to present the written content on regular time '
                'axes (read_decode_encode, readers_agree, read_temp_decode_encode, readers_agree_temperature); Python float division int(a/b) and a//b are taken to equal integer truncating / floor division '
-               'for these magnitudes; the wind and uamiv record readers are compared, not modelled',
-               'uamiv record reader: only AVERAGE/INSTANT files with an odd hour step within one day and every count >= 2 (see DESIGN 0.5)']
+               'for these magnitudes; the wind record reader is compared, not modelled',
+               'uamiv record reader: modelled (UamivRead.lean: header walk by markers, step from the first time record, count from the file header with the 24/2400 heuristic, EMISSIONS/AIRQUALITY special cases, timerange, byte positions) and compared with the real reader on every generated gridded file, also those it misreads or rejects; theorems uamiv_readers_agree_words (any file with standard headers and a time axis inside one day) and uamiv_read_encode; the agreement oracle runs on AVERAGE/INSTANT files inside one day (1, 2, 3, 4, 6 hour steps, any counts) and on 2-D emission files']
 MIN_NONTRIVIAL = {'quick': 40, 'thorough': 400}
 NPROC = {'quick': 4, 'thorough': 12}
 
@@ -39,7 +39,15 @@ def gen(rng, tier):
             c = S.gen_wind(rng)
             c['family'] = 'wind'
         elif i % 5 == 4:
-            c = camx.gen_uamiv_read_domain(rng) if i % 10 == 4 else camx.gen_uamiv_emis2d(rng)
+            sub = (i // 5) % 4
+            if sub == 3:
+                # any gridded file (all four NAME variants, steps over midnight and the year end, even hour steps): outside
+                # the domain where the record reader is meaningful, inside its model - only reader against model
+                c = camx.gen_uamiv(rng) if rng.random() < 0.6 else camx.gen_uamiv_at(
+                    rng, 2001, rng.randint(1, 365), rng.choice([0, 3, 20, 22]), tstep=rng.choice([1, 2, 3, 4, 6]))
+                c['anyfile'] = True
+            else:
+                c = [camx.gen_uamiv_read_domain, camx.gen_uamiv_one_day, camx.gen_uamiv_emis2d][sub](rng)
             c['family'] = 'uamiv'
         else:
             # every format with every kind of time axis on every run: the format cycles with the case number, the
@@ -147,6 +155,9 @@ def agree(case, out, res):
             return 'the python reference encoder and the Lean wind encoder differ'
         return S.wind_model_diff(case, res['hex'], res['memmap'])
     if case['family'] == 'uamiv':
+        d = _agree_uamiv_read_model(res)
+        if d or case.get('anyfile'):
+            return d
         if not out.startswith('ok '):
             return 'model ' + out[:40]
         for which in ('memmap', 'read'):
@@ -177,6 +188,10 @@ def agree(case, out, res):
     return _agree_read_model(case, res, False)
 
 
+def _agree_uamiv_read_model(res):
+    return camx.record_model_diff(res['hex'], res['read'])
+
+
 def _agree_read_model(case, res, irregular):
     """the record readers of the one3d family and of height/pressure files against their own Lean model
     (time arithmetic: layer count, step, end search, timerange, record positions)"""
@@ -203,7 +218,7 @@ def _agree_read_model(case, res, irregular):
 
 def oracle(case, res):
     """the two readers against each other and against what was encoded (no model)"""
-    if case.get('irregular'):
+    if case.get('irregular') or case.get('anyfile'):
         return None
     a, b = res['memmap'], res['read']
     if 'err' in a or 'err' in b:
@@ -254,7 +269,7 @@ def classify(case, failure, model_out):
 
 
 def nontrivial(case, res):
-    if case.get('irregular'):
+    if case.get('irregular') or case.get('anyfile'):
         return False
     if case['family'] in ('uamiv', 'wind'):
         return True
@@ -266,6 +281,8 @@ def distribution(recs):
     d = {}
     for r in recs:
         c = r['case']
-        k = (c['fmt'] if c['family'] in ('slab', 'wind') else 'uamiv') + ('_irregular' if c.get('irregular') else '')
+        k = (c['fmt'] if c['family'] in ('slab', 'wind') else 'uamiv') + ('_irregular' if c.get('irregular') else '') + ('_any' if c.get('anyfile') else '')
+        if c['family'] == 'uamiv' and c.get('anyfile'):
+            k += '_raises' if 'err' in r['impl'].get('read', {}) else '_reads'
         d[k] = d.get(k, 0) + 1
     return d
